@@ -243,10 +243,11 @@ def main():
         "hooks": {"guard": "gufo_snmp_verif", "enable": "RUSTFLAGS='--cfg gufo_snmp_verif' (set by every check for the codec harness build). One hook: "
                   "PrivKey::verif_set_salt / DesKey::verif_set_salt / Aes128Key::verif_set_salt (src/privacy/{mod,des,aes128}.rs, appended "
                   "impl blocks under #[cfg(gufo_snmp_verif)]; the cfg is declared in Cargo.toml [lints.rust]) places the privacy salt counter "
-                  "so that C14 reaches every carry boundary. Everything else needs no hook: private modules are reached by #[path] inclusion, "
+                  "so that C14 reaches every carry boundary; RequestId::verif_set (src/reqid.rs, same guard) places the id generator's state so that "
+                  "C03 observes the ids drawn from any state, the top of the range included. Everything else needs no hook: private modules are reached by #[path] inclusion, "
                   "sockets through the public Python API. The harness detects whether the hook exists in the tree.",
                   "baseline_off_cmd": "cd /repo && cargo test --workspace --no-fail-fast --offline",
-                  "source_commits": ["df5b76a"], "add_only": True},
+                  "source_commits": ["df5b76a", "14a4f9c"], "add_only": True},
         "engines": [{"name": "coq+differential", "path": "/verif/check", "serves_properties": sorted(CLAIMED),
                      "kind_free_text": "Coq 8.16.1 proofs over a Gallina model (coq/), model tied to /repo by translators (tools/) and by "
                                        "differential execution of the extracted model against the real Rust/Python code (harness/, ocaml/)"}],
